@@ -130,7 +130,11 @@ def hop_budget(policy, redirect_kw) -> tuple[int | None, bool]:
     if redirect_kw is False:
         return 0, False
     if policy in ("unset", None):
-        return 3, True  # Retry.DEFAULT = Retry(3): redirects consume `total`
+        # the library default, whatever it is (today Retry(3): redirects consume `total`) -- read, not assumed
+        from urllib3.util.retry import Retry
+
+        d = Retry.DEFAULT
+        policy = {"total": d.total, "redirect": d.redirect, "raise_on_redirect": d.raise_on_redirect}
     if policy is False:
         return 0, False
     if isinstance(policy, int):
@@ -258,12 +262,14 @@ def run_web(sc: dict):
             req_kw["body"] = body
         start = cfg["start"]
         try:
+            # ("call": "urlopen" -- the manager's urlopen() called directly, so that a request without a headers argument really
+            #  arrives there without one and the manager's defaults are filled in by urlopen itself)
             if cfg["entry"] == "pm":
                 obj = urllib3.PoolManager(ca_certs=T.CA_GOOD, timeout=5.0, **ctor_kw)
-                r = obj.request(cfg["method"], start, **req_kw)
+                r = (obj.urlopen if cfg.get("call") == "urlopen" else obj.request)(cfg["method"], start, **req_kw)
             elif cfg["entry"] == "proxy":
                 obj = urllib3.ProxyManager(PROXY, timeout=5.0, **ctor_kw)
-                r = obj.request(cfg["method"], start, **req_kw)
+                r = (obj.urlopen if cfg.get("call") == "urlopen" else obj.request)(cfg["method"], start, **req_kw)
             else:
                 s, a, p, q, f = split(start)
                 host, _, port = a.partition(":")
@@ -342,7 +348,7 @@ def shrink_web(sc):
             c = copy.deepcopy(sc)
             del c["config"]["headers"][i]
             yield c
-    for fld, simple in (("body", None), ("method", "GET"), ("hdr_container", "dict"), ("redirect_kw", "unset"), ("placement", "request"), ("req_none", None), ("ctor_policy", "unset")):
+    for fld, simple in (("body", None), ("method", "GET"), ("hdr_container", "dict"), ("redirect_kw", "unset"), ("placement", "request"), ("req_none", None), ("ctor_policy", "unset"), ("call", None)):
         if cfg.get(fld, simple) != simple:
             c = copy.deepcopy(sc)
             c["config"][fld] = simple
